@@ -80,9 +80,9 @@ def main():
         jobs = [(n, os.path.join(VERIF, 'equiv', n, 'patch.diff'), os.path.join(VERIF, 'equiv', n, 'note.md'), True, False) for n in names]
     else:
         pid = sys.argv[1]
-        rnd = 5 if '--round5' in sys.argv else 4 if '--round4' in sys.argv else 3 if '--round3' in sys.argv else 2 if '--round2' in sys.argv else 1
-        d = {1: '/tmp/we-%s/refactorings', 2: '/tmp/we2-%s/refactorings', 3: '/tmp/we3-%s/refactorings', 4: '/tmp/we4-%s/refactorings', 5: '/tmp/we5-%s/refactorings'}[rnd] % pid
-        tag = {1: 'r', 2: 'e2r', 3: 'e3r', 4: 'e4r', 5: 'e5r'}[rnd]
+        rnd = 6 if '--round6' in sys.argv else 5 if '--round5' in sys.argv else 4 if '--round4' in sys.argv else 3 if '--round3' in sys.argv else 2 if '--round2' in sys.argv else 1
+        d = {1: '/tmp/we-%s/refactorings', 2: '/tmp/we2-%s/refactorings', 3: '/tmp/we3-%s/refactorings', 4: '/tmp/we4-%s/refactorings', 5: '/tmp/we5-%s/refactorings', 6: '/tmp/we6-%s/refactorings'}[rnd] % pid
+        tag = {1: 'r', 2: 'e2r', 3: 'e3r', 4: 'e4r', 5: 'e5r', 6: 'e6r'}[rnd]
         jobs = [('%s-%s%d' % (pid, tag, k), os.path.join(d, 'r%d.diff' % k), os.path.join(d, 'r%d.md' % k), keep, True) for k in (1, 2, 3, 4) if os.path.exists(os.path.join(d, 'r%d.diff' % k))]
     with ThreadPoolExecutor(max_workers=2) as ex:
         results = list(ex.map(lambda j: evaluate(*j), jobs))
